@@ -39,6 +39,8 @@ func SeedLibrary(t *Tape) int64 {
 	return s
 }
 
+func seedLib(s int64) { rand.Seed(s) }
+
 // ---------- option swarm ----------
 
 // OptProfile steers the swarm towards what a property needs.
